@@ -505,6 +505,17 @@ func r13_2(c *Ctx, rule string) {
 		ok := false
 		if old != nil {
 			f := structLitFields(old)
+			// (the value may be built by a constructor, `newUser(uid, gid)`:
+			// its parameters stand for the arguments of this very call)
+			if raw, isC := a[1].(*ssa.Call); isC && eng.EffCallee(raw) == old.Parent() {
+				for k, v := range f {
+					if q, isQ := v.(*ssa.Parameter); isQ {
+						if rs := eng.ResolveAllCtx(q, []*ssa.Call{raw}); len(rs) == 1 {
+							f[k] = rs[0]
+						}
+					}
+				}
+			}
 			fromG := func(v ssa.Value) bool {
 				return c.DerivesFrom(v, func(y ssa.Value) bool { return c.isCallValueTo(y, "copy.getUIDGID") }, 3)
 			}
